@@ -461,8 +461,28 @@ def gen_return_flags(tier):
                                              for i, (t, n, sk) in enumerate(itertools.product(('none', 'full'), (0, 1), (0, 1)))]))
 
 
+def gen_attr_table_edges(tier):
+    """Documents (compiled alone: key prefix 'solo:') whose attribute table has exactly n+m entries: n on the
+    lowest-offset attributed node and m on a later one.  g_base_info_get_attribute() finds a node's attributes by
+    bsearch over the offset-sorted table and then walks back to the first entry of that node, so the first and last
+    table entries and every table size are the edge cases."""
+    rng = range(1, 7) if tier == 'thorough' else range(1, 5)
+    for n in rng:
+        for m in (0, 1, 2, 3):
+            ents = [Function('first_%d_%d' % (n, m), Ret(), [], attributes=[('a%d' % i, 'v%d' % i) for i in range(n)])]
+            if m:
+                ents.append(Function('second_%d_%d' % (n, m), Ret(), [], attributes=[('b%d' % i, 'w%d' % i) for i in range(m)]))
+            yield ('solo:attr-table:%d+%d' % (n, m), ents)
+    for n in rng:
+        # first attributed node is a nested node (parameter), last one the return value of the last function
+        yield ('solo:attr-table-nested:%d' % n,
+               [Function('fa', Ret(), [Param('p', B('gint'), attributes=[('a%d' % i, 'v%d' % i) for i in range(n)])]),
+                Function('fz', Ret(B('gint'), attributes=[('z%d' % i, 'v%d' % i) for i in range(n)]), [])])
+
+
 ALL_GENS = [gen_callbacks, gen_enums, gen_records, gen_classes, gen_functions, gen_type_positions, gen_constants,
-            gen_attr_everywhere, gen_same_type_everywhere, gen_return_flags]
+            gen_attr_everywhere, gen_same_type_everywhere, gen_return_flags,
+            gen_attr_table_edges]
 
 # entries every batch needs because other entries refer to them by name
 SUPPORT = ('cb-basic', 'enum-En', 'rec-Rec', 'class-Obj', 'class-ObjClass', 'iface-IfA', 'iface-IfB', 'iface-IfC', 'alias')
